@@ -12,12 +12,14 @@ import (
 	"runtime"
 	"strings"
 	"sync"
+	"time"
 )
 
 // Thread is one controlled goroutine.
 type Thread struct {
 	ID   int
 	Name string
+	goid int64
 	wake chan struct{}
 	pred func() bool // enabled predicate of the pending operation (nil = always enabled)
 	desc string      // description of the pending operation
@@ -42,7 +44,7 @@ type Result struct {
 	Panics    []string
 	Steps     int
 	WaitGraph string
-	Diverged  string // non-empty: replay prefix did not fit the execution (hard error)
+	Diverged  string   // non-empty: replay prefix did not fit the execution (hard error)
 	Trace     []string // every scheduling call "t<id>:<op>" (only when TraceOn)
 }
 
@@ -76,6 +78,38 @@ var s = &sched{}
 
 // Active reports whether a controlled execution is running. Shims fall back to real primitives otherwise.
 func Active() bool { return s.active }
+
+// Strict makes the shims check the calling goroutine: an operation issued by a goroutine that is not the
+// running controlled thread (a worker goroutine lindb started itself) falls through to the real primitive
+// instead of becoming a scheduling point. Costs a goroutine-id lookup per operation; harnesses that drive
+// code with free-running goroutines set it.
+var Strict bool
+
+// Controlled reports whether the caller is the running controlled thread of an active execution.
+func Controlled() bool {
+	if !s.active {
+		return false
+	}
+	if !Strict {
+		return true
+	}
+	c := s.cur
+	return c != nil && c.goid == goid()
+}
+
+func goid() int64 {
+	var buf [64]byte
+	n := runtime.Stack(buf[:], false)
+	// "goroutine 123 ["
+	var id int64
+	for _, ch := range buf[10:n] {
+		if ch < '0' || ch > '9' {
+			break
+		}
+		id = id*10 + int64(ch-'0')
+	}
+	return id
+}
 
 // Cur returns the id of the running controlled thread (-1 if none).
 func Cur() int {
@@ -132,6 +166,7 @@ func (sc *sched) newThread(name string) *Thread {
 }
 
 func (sc *sched) threadMain(t *Thread, body func()) {
+	t.goid = goid()
 	<-t.wake
 	if sc.aborted {
 		select {}
@@ -197,7 +232,7 @@ func Spawn(name string, f func()) {
 
 // Point is a scheduling point in front of an always-enabled operation.
 func Point(desc string, obj interface{}) {
-	if !s.active {
+	if !Controlled() {
 		return
 	}
 	s.point(nil, desc, false)
@@ -285,9 +320,22 @@ func (sc *sched) schedule(self *Thread) {
 			close(sc.finished)
 			return // last thread exits
 		}
-		sc.res.Deadlock = true
-		sc.res.WaitGraph = sc.waitGraph()
-		sc.abort()
+		if Strict {
+			// an uncontrolled goroutine may hold what the controlled threads wait for: give it time to release
+			for i := 0; i < 5000 && len(enabled) == 0; i++ {
+				time.Sleep(time.Millisecond)
+				for _, t := range sc.threads {
+					if !t.done && (t.pred == nil || t.pred()) {
+						enabled = append(enabled, t)
+					}
+				}
+			}
+		}
+		if len(enabled) == 0 {
+			sc.res.Deadlock = true
+			sc.res.WaitGraph = sc.waitGraph()
+			sc.abort()
+		}
 	}
 	choice := 0
 	if len(enabled) > 1 {
